@@ -12,7 +12,7 @@ from ref import oracle
 from props import creators_common as cc
 import interactive_route as ir
 
-GEN_FILES = []
+GEN_FILES = ["GenDeterminism.v"]
 EXTRA_TARGETS = ["Extract/ExtractCreators.vo"]
 AREAS = ["creators"]
 RULE = ("model tie (unit correspondence of Model/Creators.v + Model/Bencode.v encode + Spec/PathSem.v): generated content trees (single "
